@@ -697,6 +697,8 @@ class Ev:
             return BoundLib(f"set.{name}", v)
         if isinstance(v, Tup) and v.kind == "list" and name in ("sort", "reverse", "insert", "remove", "clear"):
             return BoundLib(f"list.{name}", v)
+        if isinstance(v, Tup) and name == "__getitem__":
+            return BoundLib("list.__getitem__", v)
         if isinstance(v, Tup) and name in ("append", "index", "tolist", "extend", "count", "copy", "pop"):
             return BoundLib(f"list.{name}", v)
         if isinstance(v, MatchV) and name in ("group", "groups"):
@@ -3650,9 +3652,11 @@ def lib_pinv(ev, a, k, n, mod):
     if not isinstance(herm, bool):
         raise ev.err("numpy.linalg.pinv with a non-constant hermitian flag", n, mod)
     m = a[0]
-    if herm and isinstance(m, ArrV) and len(m.shape) == 2 and any(sp.simplify(as_sym(m.get((i, j))) - sp.conjugate(as_sym(m.get((j, i))))) != 0
-                                                                   for i in range(m.shape[0]) for j in range(i)):
-        raise ev.err("numpy.linalg.pinv(hermitian=True) of a matrix that is not symmetric", n, mod)
+    if herm and isinstance(m, ArrV) and len(m.shape) == 2:
+        bad = [(i, j, m.get((i, j)), m.get((j, i))) for i in range(m.shape[0]) for j in range(i) 
+               if as_sym(m.get((i, j))) != as_sym(m.get((j, i))) and sp.simplify(as_sym(m.get((i, j))) - sp.conjugate(as_sym(m.get((j, i))))) != 0]   # equal entries: data symbols stand for real numbers
+        if bad:
+            raise ev.err(f"numpy.linalg.pinv(hermitian=True) of a matrix that is not symmetric: entries {bad[0]}", n, mod)
     out = lib_inv(ev, a[:1], {}, n, mod)
     if cut is not None:
         if not (is_sym(cut) and cut.is_number):
@@ -4055,8 +4059,30 @@ def lib_np_pad(ev, a, k, n, mod):
     x = a[0]
     width = a[1] if len(a) > 1 else k.get("pad_width")
     mode = k.get("mode", a[2] if len(a) > 2 else "constant")
+    stat_whole = False
+    if mode in ("median", "mean", "maximum", "minimum") and not (set(k) - {"pad_width", "mode", "stat_length"}):
+        # a statistic of the `stat_length` outermost values: of ONE value it is that value (mode='edge'); of the whole vector (the default, None) it is not
+        sl = k.get("stat_length")
+        if isinstance(sl, Tup):
+            sl = sl.items
+            while len(sl) == 1 and isinstance(sl[0], Tup):
+                sl = sl[0].items
+            sl = None if any(v is None for v in sl) else {_const_int(v) for v in sl}
+        elif sl is not None:
+            sl = {_const_int(sl)}
+        if sl == {1}:
+            mode = "edge"
+        elif sl is None:
+            stat_whole, mode = mode, "edge"
+        else:
+            raise ev.err("numpy.pad: a statistic of more than one but not all values is not modelled", n, mod)
+        k = {kk: vv for kk, vv in k.items() if kk != "stat_length"}
     if set(k) - {"pad_width", "mode"} or mode != "edge":
-        raise ev.err("numpy.pad: only mode='edge' is modelled", n, mod)
+        raise ev.err("numpy.pad: only mode='edge' (or a statistic mode) is modelled", n, mod)
+    if stat_whole:
+        if is_sym(x):
+            return sp.Function(f"padded_with_{stat_whole}_of_all")(as_sym(x))
+        raise ev.err("numpy.pad: statistic of the whole vector for this operand is not modelled", n, mod)
     if isinstance(width, Tup) and width.items and all(isinstance(w, Tup) for w in width.items):
         # per-axis widths: modelled when only the (single) grid axis of a (grid, k) array is padded by (1, 1)
         per = [[_const_int(v) for v in w.items] for w in width.items]
@@ -4411,6 +4437,18 @@ def lib_list_index2(ev, a, k, n, mod):
         if _same(ev, x, a[1], n, mod):
             return sp.Integer(i)
     raise RaisedV("ValueError")
+
+
+def lib_list_getitem(ev, a, k, n, mod):
+    """seq.__getitem__(i) as a function value (map(seq.__getitem__, order))"""
+    items = a[0].items
+    i = _const_int(a[1])
+    if not -len(items) <= i < len(items):
+        raise RaisedV("IndexError")
+    return items[i]
+
+
+LIB["list.__getitem__"] = lib_list_getitem
 
 
 def lib_list_pop(ev, a, k, n, mod):
